@@ -18,7 +18,7 @@ def main(tier):
     for _ in range(400 if quick else 3000):
         n, es = c19.random_graph(rnd, rnd.randint(2, 14 if quick else 25))
         sizes = [(rnd.choice([10, 20, 30, 40]), rnd.choice([10, 20, 30])) for _ in range(n)]
-        cases.append((n, sizes, [(rnd.randint(0, 300), rnd.randint(0, 300)) for _ in range(n)], es, rnd.randint(0, 7)))
+        cases.append((n, sizes, [(rnd.randint(0, 300), rnd.randint(0, 300)) for _ in range(n)], es, rnd.randint(0, 127)))
     cf = os.path.join(d, 'cases.txt')
     with open(cf, 'w') as f:
         for n, sizes, pos, es, opts in cases:
@@ -95,7 +95,7 @@ def main(tier):
     ev.cov['runs_left_by_exception'] = thrown
     ev.cov['traces_validated_against_impl'] = len(recs)
     ev.cov['rule'] = ('doHOLA runs on seeded random connected simple graphs (2..%d nodes: trees, cycles with tails, sparse, dense, hubs), node sizes from a catalogue, random initial positions, '
-                      'option vectors {ACA|chains} x near-align x convex trees; non-trivial = some route has a bend; runs that leave by std::runtime_error have no "after" state and are counted only'
+                      'option vectors {ACA|chains} x near-align x convex trees x aspect preference {landscape, none, portrait} x preferred tree growth direction; non-trivial = some route has a bend; runs that leave by std::runtime_error have no "after" state and are counted only'
                       % (14 if quick else 25))
     good = [x for x in recs if not x['thrown']]
     if good:
